@@ -38,7 +38,11 @@ type Op struct {
 	Oob  bool    `json:"oob,omitempty"` // the step is expected to fail with a run-time error
 	ViaVar bool  `json:"via_var,omitempty"` // index passed through a variable instead of a constant
 	ViaFunc bool `json:"via_func,omitempty"` // append done by a helper function: return append(s, ...)
+	Fn   int     `json:"fn,omitempty"` // lit: the literal is the result of calling fixed<Fn>(), a function returning a constant literal
 }
+
+// the constant literals returned by fixed1() and fixed2(): every call yields a new slice
+var fixedVals = [][]int32{nil, {1, 2, 3}, {4, 5}}
 
 type History struct {
 	Elem   string `json:"elem"` // int, byte, string
@@ -117,7 +121,7 @@ func (m *model) appendTo(s sl, vals []int32, dstIsSrc bool) (res sl, undetermine
 // ---- generation -------------------------------------------------------------------------------
 
 func genHistory(rt *rapid.T) *History {
-	h := &History{Elem: rx.Pick(rt, "elem", "int", "int", "byte", "string"), InFunc: rapid.Bool().Draw(rt, "inFunc")}
+	h := &History{Elem: rx.Pick(rt, "elem", "int", "int", "byte", "string", "float64"), InFunc: rapid.Bool().Draw(rt, "inFunc")}
 	m := newModel()
 	steps := rx.Range(rt, "steps", 1, 40)
 	var nextVal int32 = 10
@@ -142,6 +146,10 @@ func genHistory(rt *rapid.T) *History {
 				op, ok = Op{Op: "make", Dst: dst, N: rapid.IntRange(0, 6).Draw(rt, "n")}, true
 			case c < 200:
 				op, ok = Op{Op: "lit", Dst: dst, Vals: vals(rapid.IntRange(0, 5).Draw(rt, "nlit"))}, true
+				if rx.Chance(rt, "litfn", 1, 3) {
+					op.Fn = rx.Range(rt, "fixedfn", 1, 2)
+					op.Vals = append([]int32(nil), fixedVals[op.Fn]...)
+				}
 			case c < 215:
 				op, ok = Op{Op: "nil", Dst: dst}, true
 			case c < 450:
@@ -313,6 +321,30 @@ func (h *History) show(v int32) string {
 	return fmt.Sprint(v)
 }
 
+// probeExpr is an expression over the range value v whose result depends on v having the slice's element type;
+// probe is what Go prints for it.
+func (h *History) probeExpr() string {
+	switch h.Elem {
+	case "string":
+		return `v + "!"`
+	case "byte":
+		return "v + 200 + 100"
+	}
+	return "v / 2"
+}
+
+func (h *History) probe(v int32) string {
+	switch h.Elem {
+	case "string":
+		return h.show(v) + "!"
+	case "byte":
+		return fmt.Sprint(uint8(v) + 200 + 100)
+	case "float64":
+		return fmt.Sprint(float64(v) / 2)
+	}
+	return fmt.Sprint(v / 2)
+}
+
 func (h *History) showSlice(s []int32) string {
 	parts := make([]string, len(s))
 	for i, v := range s {
@@ -337,6 +369,9 @@ func (h *History) script() string {
 	fmt.Fprintf(&sb, "func app2(s []%s, a %s, b %s) []%s { return append(s, a, b) }\n", T, T, T, T)
 	fmt.Fprintf(&sb, "func app3(s []%s, a, b, c %s) []%s { t := append(s, a, b, c); return t }\n", T, T, T)
 	fmt.Fprintf(&sb, "func apps(s []%s, t []%s) []%s { return append(s, t...) }\n", T, T, T)
+	for k := 1; k < len(fixedVals); k++ {
+		fmt.Fprintf(&sb, "func fixed%d() []%s {\n\treturn []%s{%s}\n}\n", k, T, T, h.litList(fixedVals[k]))
+	}
 	ind := ""
 	if h.InFunc {
 		sb.WriteString("func run() {\n")
@@ -353,6 +388,10 @@ func (h *History) script() string {
 		case "make":
 			fmt.Fprintf(&sb, "%ss%d = make([]%s, %d)\n", ind, op.Dst, T, op.N)
 		case "lit":
+			if op.Fn > 0 {
+				fmt.Fprintf(&sb, "%ss%d = fixed%d()\n", ind, op.Dst, op.Fn)
+				break
+			}
 			fmt.Fprintf(&sb, "%ss%d = []%s{%s}\n", ind, op.Dst, T, h.litList(op.Vals))
 		case "nil":
 			fmt.Fprintf(&sb, "%ss%d = nil\n", ind, op.Dst)
@@ -405,7 +444,7 @@ func (h *History) script() string {
 		case "len":
 			fmt.Fprintf(&sb, "%sfmt.Println(\"len\", len(s%d))\n", ind, op.Dst)
 		case "range":
-			fmt.Fprintf(&sb, "%sfor i, v := range s%d {\n%s\tfmt.Println(\"r\", i, v)\n%s}\n", ind, op.Dst, ind, ind)
+			fmt.Fprintf(&sb, "%sfor i, v := range s%d {\n%s\tfmt.Println(\"r\", i, v, %s)\n%s}\n", ind, op.Dst, ind, h.probeExpr(), ind)
 		}
 		sb.WriteString(dump)
 	}
@@ -442,7 +481,7 @@ func (h *History) expected() (out string, panics bool) {
 			fmt.Fprintf(&sb, "len %d\n", m.v[op.Dst].n)
 		case "range":
 			for i, v := range m.v[op.Dst].get() {
-				fmt.Fprintf(&sb, "r %d %s\n", i, h.show(v))
+				fmt.Fprintf(&sb, "r %d %s %s\n", i, h.show(v), h.probe(v))
 			}
 		}
 		for i := 0; i < nVars; i++ {
@@ -509,7 +548,7 @@ func (h *History) goSlices() (out string, panicked bool) {
 			fmt.Fprintf(&sb, "len %d\n", len(v[op.Dst]))
 		case "range":
 			for i, x := range v[op.Dst] {
-				fmt.Fprintf(&sb, "r %d %s\n", i, h.show(x))
+				fmt.Fprintf(&sb, "r %d %s %s\n", i, h.show(x), h.probe(x))
 			}
 		}
 		for i := 0; i < nVars; i++ {
